@@ -69,8 +69,9 @@ LIMIT_F3_US = LIMIT_2100_US + 31 * 86400 * 10 ** 6        # end instants: events
 
 
 def f3_cells(limit_us=LIMIT_2100_US, timeout_s=60, claim="decoded", step=1000):
-    """claim='decoded': the lemma.  claim='stored' (negative control): 'the stored float equals T', which is false for small T -
-    the same encoding must refute it."""
+    """claim='decoded': lemma F3.  claim='stored' (negative control): 'the stored float equals T', which is false for small T -
+    the same encoding must refute it.  claim='near': lemma F5, the stored float is within half a microsecond of T
+    (|T.timestamp()*1000000 - T| < 1/2), which makes the encoding strictly increasing on whole microseconds."""
     from fractions import Fraction
     t0 = time.time()
     cells = 0
@@ -110,7 +111,12 @@ def f3_cells(limit_us=LIMIT_2100_US, timeout_s=60, claim="decoded", step=1000):
             s.add(z3.ToReal(i) <= q, q < z3.ToReal(i) + 1)
             s.add(p - (q - z3.ToReal(i)) * 1000000 <= Q(Fraction(1, 2 ** 34)), (q - z3.ToReal(i)) * 1000000 - p <= Q(Fraction(1, 2 ** 34)))
             s.add(z3.ToReal(r) - p <= Q(Fraction(1, 2)), p - z3.ToReal(r) <= Q(Fraction(1, 2)))
-            s.add((i * 1000000 + r != T) if claim == "decoded" else (m != z3.ToReal(T)))
+            if claim == "decoded":
+                s.add(i * 1000000 + r != T)
+            elif claim == "near":
+                s.add(z3.Or(m - z3.ToReal(T) >= Q(Fraction(1, 2)), z3.ToReal(T) - m >= Q(Fraction(1, 2))))
+            else:
+                s.add(m != z3.ToReal(T))
             t1 = time.time()
             res = s.check()
             worst = max(worst, time.time() - t1)
@@ -133,7 +139,7 @@ for f in range(0, 53):
         dt = E + timedelta(microseconds=us)
         back = datetime.fromtimestamp((dt.timestamp() * 1000000) / 1000000, timezone.utc)
         n += 1
-        bad += back != dt
+        bad += back != dt or not (abs(dt.timestamp() * 1000000 - us) < 0.5)
 print(bad, n)
 """
     p = subprocess.run([VENV_PY, "-c", code], capture_output=True, text=True, timeout=120)
